@@ -13,10 +13,17 @@
       requested fields see the same value of every shared node, impure ones included (their value carries the
       number of the call and the node, so a separate call produces a different value).
 
-  Not proved (`exactly_needed` is stated but left to the correspondence S-VM/S-REL and the call-log oracle): that
-  *only* functions the cache-free evaluation needs are executed.
+    * `only_needed`: every logged call was made on behalf of a node one of whose generators the cache-free evaluation
+      of the requested output demands (`Need`, the closure of "the program of a demanded generator, run against the
+      denotation's answers with every cache lookup a miss, issues this request").  `merge_branches`: a Merge
+      (`SwitchEdge`) demands the key and the hash / value of the branch the key routes to, and no other branch.  With
+      cache edges the machine executes a subset (a hit asks for nothing upstream).
+
+  Not proved: the converse for cache-free graphs (every demanded call is executed when the call returns); it is
+  implied for the *values* by C01 and checked for the logs by the correspondence S-VM/S-REL and the call-log oracle.
 -/
 import CM.Props.C01
+import CM.Proofs.Needed
 namespace CM.C03
 open CM
 
@@ -31,6 +38,21 @@ theorem at_most_once_cached (F : Fam) (g : Graph) (ok : GraphOKC g) (env : Strin
     ∃ N o steps, (∀ fuel, N ≤ fuel → g.call env w fuel = some (o, steps)) ∧ ∀ j, calls o.mem j ≤ 1 := by
   obtain ⟨N, o, steps, h1, h2⟩ := call_correct_c F g ok env w hc hF hst hlog
   exact ⟨N, o, steps, h1, h2.2.2⟩
+
+/-- **Only what is needed runs** (returning or raising, with or without cache edges). -/
+theorem only_needed (F : Fam) (g : Graph) (ok : GraphOKC g) (env : String → Option Val) (w : World) (hc : CallOK g env)
+    (hF : F g (denCfgOf env w)) (hst : StoreSound F w) (hlog : w.log = []) (fuel steps : Nat) (o : Outcome)
+    (hrun : g.call env w fuel = some (o, steps)) :
+    ∀ r ∈ o.mem.world.log, ∃ hp, Need g (denCfgOf env w) (false, g.output) hp r.node :=
+  call_only_needed F g ok env w hc hF hst hlog fuel steps o hrun
+
+/-- **Branches of Merge not selected by the id are not demanded.** -/
+theorem merge_branches (c : Ctx) (t : List (Val × Nat)) (a : Nat) :
+    (∀ q ∈ progDeps c ((EdgeK.switch t).hashProg a),
+      q = .pv 0 ∨ ∃ key idx, c.pv 0 = .ok key ∧ tableLookup t key = some idx ∧ q = .ph (idx + 1)) ∧
+    (∀ q ∈ progDeps c ((EdgeK.switch t).evalProg a),
+      q = .cur ∨ ∃ (h : NHash) (idx : Int), c.cur = .ok (h, .int idx) ∧ q = .pv (idx.toNat + 1)) :=
+  ⟨switch_hash_deps c t a, switch_eval_deps c t a⟩
 
 theorem asVals_map_val : ∀ vs : List Val, asVals (vs.map Item.val) = some vs
   | [] => rfl
